@@ -136,8 +136,22 @@ func genC07(g *Gen, tier string, idx int) *wire.Scenario {
 			}
 		}
 	}
+	revertFam := false
+	if !vi && g.P(12) {
+		// revert-line throws the line's changes and its undo history away; what is typed after it
+		// must be undoable back to the line's initial content like anything else
+		add("revert-line")
+		for i := 0; i < g.Range(1, 3); i++ {
+			if g.P(80) {
+				sc.Script = append(sc.Script, tok(string(Pick(g, []rune("abc de"))), "self-insert"))
+			} else {
+				add("yank")
+			}
+		}
+		revertFam = true
+	}
 	// a closing block undo^n redo^n, then undo until the start
-	if g.P(50) {
+	if g.P(50) && !revertFam {
 		k := g.Range(1, 4)
 		for i := 0; i < k; i++ {
 			if vi && km == "vi-insert" {
@@ -154,7 +168,7 @@ func genC07(g *Gen, tier string, idx int) *wire.Scenario {
 			add("redo")
 		}
 	}
-	if g.P(40) {
+	if g.P(40) || revertFam {
 		if vi && km == "vi-insert" {
 			sc.Script = append(sc.Script, tok("\x1b", "vi-movement-mode"))
 			km = "vi-command"
